@@ -45,6 +45,9 @@ func (x *Exec) execInstr(fr *Frame, st *State, instr ssa.Instruction) {
 	switch t := instr.(type) {
 	case *ssa.DebugRef:
 		if id, ok := t.Expr.(*ast.Ident); ok {
+			if obj := t.Object(); obj != nil && obj.Pkg() != nil && obj.Parent() == obj.Pkg().Scope() {
+				break // package-level object: specs resolve it through the package scope
+			}
 			if v, have := fr.vals[t.X]; have {
 				fr.namedDefs[id.Name] = append(fr.namedDefs[id.Name], namedDef{t.Block(), v, t.IsAddr})
 			} else if _, isConst := t.X.(*ssa.Const); !isConst && !t.IsAddr {
@@ -216,12 +219,12 @@ func (x *Exec) rememberStatic(fr *Frame, p Val, v Val) {
 		return
 	}
 	key := p.ptrPrefixOr() + "@" + p.L[0] + "@" + p.PtrIndex
-	fr.static[key] = v
+	x.static[key] = v
 }
 
 func (x *Exec) recallStatic(fr *Frame, p Val, v Val) Val {
 	key := p.ptrPrefixOr() + "@" + p.L[0] + "@" + p.PtrIndex
-	if s, ok := fr.static[key]; ok && len(s.L) == len(v.L) {
+	if s, ok := x.static[key]; ok && len(s.L) == len(v.L) {
 		same := true
 		for i := range s.L {
 			if s.L[i] != v.L[i] {
@@ -576,6 +579,12 @@ func (x *Exec) doTypeAssert(fr *Frame, st *State, t *ssa.TypeAssert) Val {
 			okT = eq(app("ityp", v.L[0]), x.typeID(t.AssertedType))
 		}
 		payload = x.ifacePayload(st, v, t.AssertedType)
+		// an interface value of dynamic type T is exactly the boxing of its payload
+		if v.Dyn == nil && len(payload.L) == 1 {
+			if re := x.makeIface(st, v.T, payload); len(re.L) == 1 && strings.HasPrefix(re.L[0], "(mk") {
+				x.smt.Assert(implies(okT, eq(v.L[0], re.L[0])))
+			}
+		}
 	}
 	if t.CommaOk {
 		// on failure the value is the zero value
